@@ -5,6 +5,22 @@ props=[json.loads(l) for l in open('/verif/properties.jsonl')]
 ENV="GOFLAGS=-mod=mod GOPROXY=off GOSUMDB=off GOTOOLCHAIN=local"
 TECH="bounded symbolic execution of the real Go code (go/ssa -> SMT-LIB2 bit-vector encoding written for this task), decided by SMT solvers (z3 5.1.0 / z3 4.8.12 / cvc5), counterexamples replayed natively"
 claimed = {
+ "C13": dict(
+   text="Bounded model checking of the non-JSON wire examiners: checkGRPCStatus accepts grpc-status 1..16 with grpc-message = PercentEncodeMessage(m) for every byte string m of length <=3 and flags raw non-printable bytes and dangling escapes; the field-name / field-value validators equal the RFC 7230 tables for every string of length <=2; examineGRPCEndStream never panics on any string of length <=5 over {a, A, colon, space, CR, LF} (line structure case-split, bytes symbolic), gives no feedback and the right map for a well-formed line, and flags each named malformation.",
+   note="Connect JSON examiners (encoding/json), grpc-status-details-bin (base64 + protobuf) and examineWireDetails (needs trace structures) are outside the claim; std-lib string helpers are bounded Go models.",
+   ref="7 (C13)"),
+ "C16": dict(
+   text="Bounded model checking of Tracer over atomic-step schedules: every sequence of 4 operations from {Init, Complete, Clear, Await} over two test names, where a blocked Await lets the remaining operations run (nested waiters included) and ends with its context when nothing is left; each waiter gets precisely the first trace completed for the slot it waited on (before or after the wait began), waits on cleared / never-initialised names fail, a wait never outlives its context.",
+   note="Each operation is atomic under the tracer's lock (that is how the code is written); data races and interleavings inside a step need a memory-model checker and are outside the claim; the builder's exactly-once completion is not covered yet.",
+   ref="7 (C16)"),
+ "C17": dict(
+   text="Bounded model checking of the raw-payload encoders and the raw response writer: WriteRawStreamContents/WriteRawMessageContents (identity) write flags, big-endian explicit-or-computed length and payload per item for <=2 items with any flags 0..300, any uint32 explicit length, payload <=2 symbolic bytes, never close the destination, reject flags > 255, and are invertible; rawResponseWriter arbitration for every sequence of <=4 operations; finish() sends the given status (200 if unset), restores earlier-middleware headers, sends raw headers in order, declares and sends trailers, and exactly the given body.",
+   note="Non-identity compressions are third-party code (C20); rawRequestSender.RoundTrip (net/http, io.Pipe, goroutines, net/url) is outside the claim.",
+   ref="7 (C17)"),
+ "C18": dict(
+   text="Bounded model checking of the byte kernels and the codec wiring: PercentEncodeMessage yields printable ASCII and is inverted by the reference decoder for every byte string of length <=3; header list -> gRPC metadata -> header list preserves the key up to case and the values in order with -bin values coded exactly once; StrictProtoCodec / StrictJSONCodec decode what Marshal, MarshalAppend and MarshalStable produce and reject unknown fields.",
+   note="base64 and proto/protojson are inverse-pair contract stubs in the engine (real libraries natively), so the libraries' own losslessness is outside the claim; connect.Error / grpc status conversions are not encoded.",
+   ref="7 (C18)"),
  "C02": dict(
    text="Crash-freedom clause (last sentence) plus the structural part of the derivation: populateExpectedResponse (unary and stream variants, real SSA) for every stream type 0..6, 0..3 request messages of any of the 4 request types or undecodable, response definition present or not, 0..3 response_data items, error present or not: no reachable panic, error-or-expectation, one payload per response item in order, request echo per stream type (full-duplex ping-pong, including more responses than requests).",
    note="The agreement clause (derived expectation == what the reference peers produce) needs the whole RPC stack and is outside the claim (same reason as C01); Any (un)marshalling is a table-lookup stub in the engine and real natively; expandRequestData's crash freedom is covered by the C19 harness.",
